@@ -210,11 +210,39 @@ ReadOK(sc, rd) ==
 FileOK(e) ==
   /\ e.error = ""
   /\ \A x \in 1..Len(e.reads) : ReadOK(e.parts[1], e.reads[x])
-FileClass(e) ==
-  IF e.error # "" THEN "write-or-open-error"
-  ELSE LET badr == SelectSeq(e.reads, LAMBDA rd : ~ReadOK(e.parts[1], rd)) IN
-       IF badr = <<>> THEN "none"
-       ELSE IF badr[1].error # "" THEN "read-error" ELSE "wrong-rows"
+\* Why could the file path go wrong on this column?  (the finding signature)
+\* The pages of the file are reconstructed (one page, or the two written batches when every batch
+\* becomes a page) and the named deviations of the rep/def code are tried on them.  Two more classes
+\* belong to the page layouts of encodings/logical/primitive.rs:
+\*  FullZipAllZeroDefDropped : encode_full_zip sizes the definition bits from the largest level that
+\*      occurs; a page whose validity bitmaps contain no null gets no definition levels at all while
+\*      its interpretation still says NullableItem, and unravel_validity unwraps a missing buffer
+\*  AllNullPageRowsAreLevels : the layout for pages without any non-null item ("complex all null")
+\*      takes the requested row range as a range of levels, which is only right when every row has
+\*      exactly one level
+FilePages(e) ==
+  LET sc == e.parts[1] IN
+  IF e.two_batches /\ e.tiny_pages /\ e.reps = 1 /\ Rows(sc) >= 2
+  THEN <<SubCol(sc, 1, Rows(sc) \div 2), SubCol(sc, (Rows(sc) \div 2) + 1, Rows(sc))>>
+  ELSE <<sc>>
+FileExplainedBy(e) ==
+  LET ps == FilePages(e)
+      lvs == [i \in 1..Len(ps) |-> Levels(ps[i])]
+      whole == ConcatAll(ps)
+      singles == <<"AllValidListLevelsFromZero", "AllValidListNotCounted", "TruncateByOffsetsLen", "AllValidAppendsNumItems">>
+      breaks(d) == LET o == Unravel(lvs, ps, {d}) IN ~(WellFormed(o) /\ Tree(o) = Tree(whole))
+      hit == SelectSeq(singles, breaks)
+      allnull(sc) == /\ \A j \in 1..Len(sc.v[NL(sc)]) : sc.v[NL(sc)][j] = 0 \/ Masked(sc, NL(sc), j)
+                     /\ \E r \in 1..Rows(sc) : Len(RowLevels(sc, r)) # 1
+  IN IF \E i \in 1..Len(ps) : Build(ps[i], {"ValidityLenDropsSpecials"}) # lvs[i]
+                              \/ DebugAssertTrips(ps[i], {"ValidityLenDropsSpecials"})
+     THEN "ValidityLenDropsSpecials"
+     ELSE IF hit # <<>> THEN hit[1]
+     ELSE IF \E i \in 1..Len(ps) : allnull(ps[i]) THEN "AllNullPageRowsAreLevels"
+     ELSE IF e.fullzip /\ \E i \in 1..Len(ps) : (lvs[i].hasdef /\ \A x \in 1..Len(lvs[i].def) : lvs[i].def[x] = 0)
+     THEN "FullZipAllZeroDefDropped"
+     ELSE "unexplained"
+FileClass(e) == FileExplainedBy(e)
 
 (***************************************************************************)
 (* the judgement                                                           *)
